@@ -242,6 +242,11 @@ func (s *Syncer[H]) findTailHeight(ctx context.Context, oldTail, head H) (uint64
 			return oldTail.Height(), nil
 		}
 		estimatedTailHeight = head.Height() - headersToStore
+		if estimatedTailHeight <= oldTail.Height() {
+			// by estimation the window reaches down to the current tail or below it (blocks come
+			// slower than the block time, e.g. a halted chain): the tail never moves down, stick to it
+			return oldTail.Height(), nil
+		}
 	case tailTimeDiff < window:
 		// tails are close
 		// estimate with tail for higher accuracy
